@@ -224,6 +224,11 @@ def resolve_tree(node, tree, ctx, to_basic=True):
 
 def op_strategy(spec, max_ops, routes=None):
     """Histories over the schema described by ``spec`` (operands are indices resolved modulo the state)."""
+    return st.lists(single_op(spec), min_size=2, max_size=max_ops)
+
+
+def single_op(spec):
+    """One operation on a configuration of ``spec``."""
     leaves = spec_leaves(spec)
     conts = spec_containers(spec)
     ro = spec_readonly(spec)
@@ -288,9 +293,7 @@ def op_strategy(spec, max_ops, routes=None):
     dyn = [p for p, n in [((), spec)] + spec_containers(spec) if n.get("dynamic")]
     if dyn:
         ops.append(D({"op": J("dyn_set"), "d": st.integers(0, len(dyn) - 1), "key": st.sampled_from(["extra1", "extra2", "zz"]), "value": specs.junk()}))
-    if routes:
-        ops = [o for o in ops]  # routes filter is applied by callers through op names
-    return st.lists(st.one_of(*ops), min_size=2, max_size=max_ops)
+    return st.one_of(*ops)
 
 
 # -- interpreter ---------------------------------------------------------------------------------------
@@ -311,9 +314,33 @@ def set_via(cfg, path, value, how):
         cfg[".".join(path)] = value
 
 
+def prepare(world, state, op):
+    """Pre-step of in-place container ops: an unset typed list/dict is first assigned an empty one."""
+    cfg = state["cfg"]
+    leaves = spec_leaves(world.spec)
+    name = op["op"]
+    try:
+        if name == "listop":
+            tls = [(p, n) for p, n in leaves if n["kind"] == "list" and n.get("item")]
+            path, empty = tls[op["tl"] % len(tls)][0], []
+        elif name == "dictop":
+            tds = [(p, n) for p, n in leaves if n["kind"] == "dict" and (n.get("keyf") or n.get("valuef"))]
+            path, empty = tds[op["td"] % len(tds)][0], {}
+        elif name == "slistop":
+            sls = [(p, n) for p, n in leaves if n["kind"] == "schemalist"]
+            path, empty = sls[op["sl"] % len(sls)][0], []
+        else:
+            return
+        if get_path(cfg, path) is None:
+            set_via(cfg, path, empty, "setattr")
+    except Exception:
+        pass
+
+
 def apply_op(world, state, op):
     """Apply one op to ``state['cfg']`` (ctor ops may replace it). Returns an Outcome; never judges."""
     cc = world.cc
+    prepare(world, state, op)
     cfg = state["cfg"]
     spec = world.spec
     leaves = spec_leaves(spec)
@@ -475,6 +502,8 @@ def apply_op(world, state, op):
             what, k, v, kv = op["what"], specs.realize(op["k"]), specs.realize(op["v"]), [(specs.realize(a), specs.realize(b)) for a, b in op["kv"]]
             if what == "setitem":
                 dct[k] = v
+            elif what == "update1":
+                dct.update({k: v})
             elif what == "update":
                 dct.update(dict(kv))
             elif what == "update-pairs":
